@@ -39,7 +39,7 @@ func (w *WaterMark) Init(closer *Closer) {
 	const defaultCap = 128
 	w.waiters = make(map[uint64]chan struct{}, defaultCap)
 	w.window.Store(&watermarkWindow{
-		base:  1,
+		base:  0,
 		slots: make([]atomic.Int32, defaultWatermarkWindow),
 	})
 	// Legacy closers expected each watermark processor to call Done once.
@@ -136,9 +136,6 @@ func (w *WaterMark) WaitForMark(ctx context.Context, index uint64) error {
 }
 
 func (w *WaterMark) addIndex(index uint64, delta int32) {
-	if index == 0 {
-		return
-	}
 	w.addCount(index, delta)
 	w.tryAdvance()
 }
@@ -149,9 +146,6 @@ func (w *WaterMark) addIndex(index uint64, delta int32) {
 // the window forward and never shrinks it, so after ensureWindow the index is
 // either inside the current window or already at/below doneUntil.
 func (w *WaterMark) addCount(index uint64, delta int32) {
-	if index == 0 {
-		return
-	}
 	w.ensureWindow(index)
 	w.winMu.RLock()
 	win := w.loadWindow()
@@ -240,7 +234,7 @@ func (w *WaterMark) ensureWindow(index uint64) *watermarkWindow {
 func (w *WaterMark) rebuildWindowLocked(index uint64, win *watermarkWindow) {
 	done := w.DoneUntil()
 	// Keep the slot of the mark itself: an index begun at the mark must still count.
-	newBase := max(done, 1)
+	newBase := done
 	if index < newBase {
 		index = newBase
 	}
@@ -279,7 +273,7 @@ func (w *WaterMark) rebuildWindowLocked(index uint64, win *watermarkWindow) {
 func (w *WaterMark) loadWindow() *watermarkWindow {
 	if w.window.Load() == nil {
 		win := &watermarkWindow{
-			base:  1,
+			base:  0,
 			slots: make([]atomic.Int32, defaultWatermarkWindow),
 		}
 		w.window.Store(win)
